@@ -108,3 +108,103 @@ Qed.
 Lemma py_take_of_nat (x : list Z) (idx : list nat) :
   py_take x (map Z.of_nat idx) = map (fun i => nth i x 0) idx.
 Proof. unfold py_take. rewrite map_map. apply map_ext. intros i. rewrite Nat2Z.id. reflexivity. Qed.
+
+(* ---------------------------------------------------------------------------------------------- *)
+(* NumPy matrix expressions (2-D arrays as lists of rows), as emitted for the RDM estimators *)
+Section Mat.
+  Context {F : Type} (O : NumOps F).
+  Definition np_mmap (f : F -> F) (A : list (list F)) : list (list F) := map (map f) A.
+  Definition np_mmap2 (f : F -> F -> F) (A B : list (list F)) : list (list F) := map2 (map2 f) A B.
+  (* A @ B.T, np.dot(A, B.T), np.einsum('ik,jk', A, B) *)
+  Definition np_matmulT (A B : list (list F)) : list (list F) := map (fun a => map (fun b => dot O a b) B) A.
+  (* (n,1) op (1,m) broadcast: entry (i,j) = f col_i row_j *)
+  Definition np_outer (f : F -> F -> F) (col row : list F) : list (list F) := map (fun x => map (fun y => f x y) row) col.
+  Definition np_diag (A : list (list F)) : list F := map (fun i => nth i (nth i A []) (n0 O)) (seq 0 (length A)).
+  Definition np_T (A : list (list F)) : list (list F) :=
+    map (fun j => map (fun r => nth j r (n0 O)) A) (seq 0 (length (hd [] A))).
+  (* X[np.triu(ones, k=1)]: strict upper triangle, row-major *)
+  Fixpoint np_triu_from (k : nat) (A : list (list F)) : list F :=
+    match A with [] => [] | r :: t => skipn (S k) r ++ np_triu_from (S k) t end.
+  Definition np_triu (A : list (list F)) : list F := np_triu_from 0 A.
+  (* np.sum(A, axis=1), np.einsum('ij,ij->i', A, B) *)
+  Definition np_rowsum (A : list (list F)) : list F := map (sum O) A.
+  Definition np_rowdot (A B : list (list F)) : list F := map2 (dot O) A B.
+  (* A / v[:, None] *)
+  Definition np_rowscale_div (A : list (list F)) (v : list F) : list (list F) := map2 (fun a s => vdivs O a s) A v.
+
+  (* the matrix of a binary function over a list of patterns *)
+  Definition pairwise (f : list F -> list F -> F) (rows : list (list F)) : list (list F) :=
+    map (fun a => map (fun b => f a b) rows) rows.
+
+  Lemma map2_map_map {X Y Z W} (f : Y -> Z -> W) (g : X -> Y) (h : X -> Z) (l : list X) :
+    map2 f (map g l) (map h l) = map (fun x => f (g x) (h x)) l.
+  Proof. induction l as [|x t IH]; [reflexivity|]. cbn [map map2]. rewrite IH. reflexivity. Qed.
+
+  Lemma matmulT_pairwise rows : np_matmulT rows rows = pairwise (dot O) rows.
+  Proof. reflexivity. Qed.
+
+  Lemma matmulT_pairwise_r (g : list F -> list F) rows :
+    np_matmulT rows (map g rows) = pairwise (fun a b => dot O a (g b)) rows.
+  Proof. unfold np_matmulT, pairwise. apply map_ext. intros a. rewrite map_map. reflexivity. Qed.
+
+  Lemma mmap2_pairwise op f g rows :
+    np_mmap2 op (pairwise f rows) (pairwise g rows) = pairwise (fun a b => op (f a b) (g a b)) rows.
+  Proof.
+    unfold np_mmap2, pairwise. rewrite map2_map_map. apply map_ext. intros a. apply map2_map_map.
+  Qed.
+
+  Lemma mmap_pairwise h f rows : np_mmap h (pairwise f rows) = pairwise (fun a b => h (f a b)) rows.
+  Proof. unfold np_mmap, pairwise. rewrite map_map. apply map_ext. intros a. apply map_map. Qed.
+
+  Lemma outer_pairwise op (u v : list F -> F) rows :
+    np_outer op (map u rows) (map v rows) = pairwise (fun a b => op (u a) (v b)) rows.
+  Proof. unfold np_outer, pairwise. rewrite map_map. apply map_ext. intros a. apply map_map. Qed.
+
+  Lemma map_nth_seq_gen {X Y} (h : X -> Y) (l : list X) (d : X) :
+    map (fun j => h (nth j l d)) (seq 0 (length l)) = map h l.
+  Proof.
+    induction l as [|x t IH]; [reflexivity|]. cbn [length seq map nth]. f_equal.
+    rewrite <- seq_shift, map_map. exact IH.
+  Qed.
+
+  Lemma diag_pairwise f rows : np_diag (pairwise f rows) = map (fun a => f a a) rows.
+  Proof.
+    unfold np_diag, pairwise. rewrite map_length.
+    rewrite <- (map_nth_seq_gen (fun a => f a a) rows []).
+    apply map_ext_in. intros i Hi. apply in_seq in Hi.
+    rewrite (nth_indep _ [] (map (fun b => f [] b) rows)) by (rewrite map_length; lia).
+    rewrite (map_nth (fun a => map (fun b => f a b) rows) rows [] i).
+    rewrite (nth_indep _ (n0 O) (f (nth i rows []) [])) by (rewrite map_length; lia).
+    rewrite (map_nth (fun b => f (nth i rows []) b) rows [] i). reflexivity.
+  Qed.
+
+  Lemma T_pairwise f rows : np_T (pairwise f rows) = pairwise (fun a b => f b a) rows.
+  Proof.
+    unfold np_T, pairwise.
+    assert (length (hd [] (map (fun a => map (fun b => f a b) rows) rows)) = length rows) as Hl.
+    { destruct rows as [|r0 t]; [reflexivity|]. cbn [map hd length]. rewrite map_length. reflexivity. }
+    rewrite Hl.
+    rewrite <- (map_nth_seq_gen (fun b => map (fun a => f a b) rows) rows []).
+    apply map_ext_in. intros j Hj. apply in_seq in Hj. rewrite map_map. apply map_ext. intros a.
+    rewrite (nth_indep _ (n0 O) (f a [])) by (rewrite map_length; lia).
+    rewrite (map_nth (fun b => f a b) rows [] j). reflexivity.
+  Qed.
+
+  Lemma triu_from_pairwise f (pre rows : list (list F)) :
+    np_triu_from (length pre) (map (fun a => map (fun b => f a b) (pre ++ rows)) rows) = triu_map f rows.
+  Proof.
+    revert pre. induction rows as [|r t IH]; intros pre; [reflexivity|].
+    cbn [map np_triu_from triu_map]. f_equal.
+    - rewrite map_app. cbn [map]. replace (S (length pre)) with (length (map (fun b => f r b) pre ++ [f r r]))
+        by (rewrite app_length, map_length; cbn; lia).
+      change (map (fun b => f r b) pre ++ f r r :: map (fun b => f r b) t)
+        with (map (fun b => f r b) pre ++ [f r r] ++ map (fun b => f r b) t).
+      rewrite app_assoc, skipn_app, skipn_all, Nat.sub_diag. reflexivity.
+    - specialize (IH (pre ++ [r])). rewrite app_length in IH. cbn [length] in IH.
+      replace (length pre + 1)%nat with (S (length pre)) in IH by lia.
+      rewrite <- IH. f_equal. apply map_ext. intros a. rewrite <- app_assoc. reflexivity.
+  Qed.
+
+  Lemma triu_pairwise f rows : np_triu (pairwise f rows) = triu_map f rows.
+  Proof. exact (triu_from_pairwise f [] rows). Qed.
+End Mat.
